@@ -1070,7 +1070,7 @@ Proof.
       match goal with |- context [set_catch V _ ?cc] => set (c' := cc) end.
       assert (Hv' : t_vals c' <> []) by (cbn [c' t_vals app]; discriminate).
       assert (Hk' : str_eqb (last_key (t_keys c')) (t_path c') = true).
-      { cbn [c' t_keys t_path]. rewrite last_key_snoc. apply str_eqb_refl. }
+      { unfold c'. cbn [t_keys t_path]. rewrite last_key_snoc. apply str_eqb_refl. }
       destruct (lift_catch V (child_created V n) c' (wfb_child_created V n Hwf) eq_refl Hv' Hk' (child_created_flag V n)) as [Hw' Hu'].
       rewrite abs_child_created in Hu'.
       split; [exact Hw'|]. split; [destruct n; reflexivity | exact Hu'].
